@@ -8,7 +8,7 @@ import FlacModel.Model.Decode
 namespace Flac
 open Gen
 
-def resOkB (r : Int) : Bool := decide (-2147483648 < r) && decide (r < 2147483648)
+def resOkB (r : Int) : Bool := decide (-2147483648 ≤ r) && decide (r < 2147483648)
 
 def partWfB (pbits n : Nat) : Partition → Bool
   | .rice k rs => decide (k < 2 ^ pbits - 1) && (rs.length == n) && rs.all resOkB
